@@ -275,13 +275,18 @@ Definition r_wedged (v : variant) (s : rstate) : Prop :=
    Closers are environment processes: [CCloserStart j] (the goroutine begins to execute the
    closer; for the fatal closer: creates the timer), [CCloserReturn j] (a user closer returns its
    scripted result; its send into the buffered errCh makes the result available to the loop).
-   The fatal closer: [CFire] = the clock delivers the grace timer; [CFatal] = its select takes the
+   The fatal closer: [CAdvance d] = the clock advances by d >= 0; [CFire] = the clock delivers the
+   grace timer (enabled once it has advanced by the grace period since the timer was created - at
+   once when the grace period is 0 or negative); [CFatal] = its select takes the
    timer branch and calls the fatal action; [CFatalQuit] = its select takes the closeFatalShutdown
    branch.  When both branches are ready Go's select picks either: both events are enabled and
    the ghost flag [tie] records that this happened.
    mngr.lock is held by Run exactly while [c_pc] is [CCollect]. *)
 
-Inductive cl := Fatal | User (r : option err).
+(* [Fatal d]: the fatal-shutdown closer of a manager created with grace period d (nanoseconds; any
+   integer: NewRunnerCloserManager registers it for every non-nil pointer, also to 0 or a negative
+   duration) *)
+Inductive cl := Fatal (d : Z) | User (r : option err).
 Inductive cst := CSpawned | CRunning | CRet | CColl.
 Record cproc := mkc { c_cl : cl; c_st : cst; c_starts : nat }.
 
@@ -324,7 +329,8 @@ Record cstate := mkcs {
   addcl : list acst;
   closes : list kst;
   run_rejected : nat;           (* ghost: Run calls that returned ErrManagerAlreadyStarted *)
-  cadds : list cadd             (* RunnerCloserManager.Add calls so far *)
+  cadds : list cadd;            (* RunnerCloserManager.Add calls so far *)
+  elapsed : Z                   (* how far the clock has advanced since the grace timer was created *)
 }.
 
 Inductive cev :=
@@ -335,6 +341,7 @@ Inductive cev :=
 | CClosing
 | CCloserStart (j : nat)
 | CCloserReturn (j : nat)
+| CAdvance (d : Z)
 | CFire
 | CFatal
 | CFatalQuit
@@ -354,34 +361,51 @@ Definition lock_held (s : cstate) : bool :=
 Definition w_inner (s : cstate) (x : rstate) : cstate :=
   mkcs x (c_running s) (c_closing s) (c_stopped s) (closers s) (c_pc s) (c_procs s) (fch_closed s)
        (timer_fired s) (fired_early s) (fatal_count s) (tie s) (reterr s) (addcl s) (closes s)
-       (run_rejected s) (cadds s).
+       (run_rejected s) (cadds s) (elapsed s).
 Definition w_pc (s : cstate) (x : cpc) : cstate :=
   mkcs (inner s) (c_running s) (c_closing s) (c_stopped s) (closers s) x (c_procs s) (fch_closed s)
        (timer_fired s) (fired_early s) (fatal_count s) (tie s) (reterr s) (addcl s) (closes s)
-       (run_rejected s) (cadds s).
+       (run_rejected s) (cadds s) (elapsed s).
 Definition w_procs (s : cstate) (x : list cproc) : cstate :=
   mkcs (inner s) (c_running s) (c_closing s) (c_stopped s) (closers s) (c_pc s) x (fch_closed s)
        (timer_fired s) (fired_early s) (fatal_count s) (tie s) (reterr s) (addcl s) (closes s)
-       (run_rejected s) (cadds s).
+       (run_rejected s) (cadds s) (elapsed s).
 Definition w_addcl (s : cstate) (x : list acst) : cstate :=
   mkcs (inner s) (c_running s) (c_closing s) (c_stopped s) (closers s) (c_pc s) (c_procs s)
        (fch_closed s) (timer_fired s) (fired_early s) (fatal_count s) (tie s) (reterr s) x (closes s)
-       (run_rejected s) (cadds s).
+       (run_rejected s) (cadds s) (elapsed s).
 Definition w_closes (s : cstate) (x : list kst) : cstate :=
   mkcs (inner s) (c_running s) (c_closing s) (c_stopped s) (closers s) (c_pc s) (c_procs s)
        (fch_closed s) (timer_fired s) (fired_early s) (fatal_count s) (tie s) (reterr s) (addcl s) x
-       (run_rejected s) (cadds s).
+       (run_rejected s) (cadds s) (elapsed s).
+
+Definition w_elapsed (s : cstate) (x : Z) : cstate :=
+  mkcs (inner s) (c_running s) (c_closing s) (c_stopped s) (closers s) (c_pc s) (c_procs s)
+       (fch_closed s) (timer_fired s) (fired_early s) (fatal_count s) (tie s) (reterr s) (addcl s)
+       (closes s) (run_rejected s) (cadds s) x.
 
 Definition w_cadds (s : cstate) (x : list cadd) : cstate :=
   mkcs (inner s) (c_running s) (c_closing s) (c_stopped s) (closers s) (c_pc s) (c_procs s)
        (fch_closed s) (timer_fired s) (fired_early s) (fatal_count s) (tie s) (reterr s) (addcl s)
-       (closes s) (run_rejected s) x.
+       (closes s) (run_rejected s) x (elapsed s).
 
 Definition cset_st (st : cst) (p : cproc) : cproc := mkc (c_cl p) st (c_starts p).
 Definition cstart (p : cproc) : cproc := mkc (c_cl p) CRunning (S (c_starts p)).
 
-Definition is_fatal (c : cl) : bool := match c with Fatal => true | User _ => false end.
-Definition cl_result (c : cl) : option err := match c with Fatal => None | User r => r end.
+Definition is_fatal (c : cl) : bool := match c with Fatal _ => true | User _ => false end.
+Definition cl_result (c : cl) : option err := match c with Fatal _ => None | User r => r end.
+
+(* the grace period of the (first) fatal closer among the goroutines *)
+Fixpoint fatal_grace (ps : list cproc) : option Z :=
+  match ps with
+  | [] => None
+  | p :: t => match c_cl p with Fatal d => Some d | User _ => fatal_grace t end
+  end.
+
+(* the timer is due: the clock has advanced by at least the grace period since it was created
+   (at once for a grace period of 0 or less) *)
+Definition grace_elapsed (s : cstate) : bool :=
+  match fatal_grace (c_procs s) with Some d => (d <=? elapsed s)%Z | None => false end.
 
 (* index of the fatal closer's goroutine in a state where it is [CRunning] *)
 Fixpoint find_fatal_running (ps : list cproc) (i : nat) : option nat :=
@@ -407,10 +431,10 @@ Definition step_c_gen (v u : variant) (s : cstate) (e : cev) : option cstate :=
       if c_running s
       then Some (mkcs (inner s) true (c_closing s) (c_stopped s) (closers s) (c_pc s) (c_procs s)
                       (fch_closed s) (timer_fired s) (fired_early s) (fatal_count s) (tie s)
-                      (reterr s) (addcl s) (closes s) (S (run_rejected s)) (cadds s))
+                      (reterr s) (addcl s) (closes s) (S (run_rejected s)) (cadds s) (elapsed s))
       else Some (mkcs (inner s) true (c_closing s) (c_stopped s) (closers s) CStarted (c_procs s)
                       (fch_closed s) (timer_fired s) (fired_early s) (fatal_count s) (tie s)
-                      (reterr s) (addcl s) (closes s) (run_rejected s) (cadds s))
+                      (reterr s) (addcl s) (closes s) (run_rejected s) (cadds s) (elapsed s))
   | CSetupLen =>
       match c_pc s with
       | CStarted =>
@@ -464,17 +488,22 @@ Definition step_c_gen (v u : variant) (s : cstate) (e : cev) : option cstate :=
                      (CCollect (length (closers s)) 1 rerrs)
                      (map (fun c => mkc c CSpawned 0) (closers s))
                      (fch_closed s) (timer_fired s) (fired_early s) (fatal_count s) (tie s)
-                     (reterr s) (addcl s) (closes s) (run_rejected s) (cadds s))
+                     (reterr s) (addcl s) (closes s) (run_rejected s) (cadds s) (elapsed s))
       | _, _ => None
       end
   | CCloserStart j =>
       match nth_error (c_procs s) j with
       | Some p => match c_st p with
-                  | CSpawned => Some (w_procs s (upd j cstart (c_procs s)))
+                  | CSpawned =>
+                      (* the fatal closer creates its timer now: the grace period counts from here *)
+                      Some (w_elapsed (w_procs s (upd j cstart (c_procs s)))
+                                      (if is_fatal (c_cl p) then 0%Z else elapsed s))
                   | _ => None
                   end
       | None => None
       end
+  | CAdvance d =>
+      if (0 <=? d)%Z then Some (w_elapsed s (elapsed s + d)%Z) else None
   | CCloserReturn j =>
       match nth_error (c_procs s) j with
       | Some p => match c_st p, c_cl p with
@@ -486,10 +515,10 @@ Definition step_c_gen (v u : variant) (s : cstate) (e : cev) : option cstate :=
   | CFire =>
       match find_fatal_running (c_procs s) 0 with
       | Some _ =>
-          if timer_fired s then None
+          if timer_fired s || negb (grace_elapsed s) then None
           else Some (mkcs (inner s) (c_running s) (c_closing s) (c_stopped s) (closers s) (c_pc s)
                           (c_procs s) (fch_closed s) true (negb (fch_closed s)) (fatal_count s)
-                          (tie s) (reterr s) (addcl s) (closes s) (run_rejected s) (cadds s))
+                          (tie s) (reterr s) (addcl s) (closes s) (run_rejected s) (cadds s) (elapsed s))
       | None => None
       end
   | CFatal =>
@@ -499,7 +528,7 @@ Definition step_c_gen (v u : variant) (s : cstate) (e : cev) : option cstate :=
           then Some (mkcs (inner s) (c_running s) (c_closing s) (c_stopped s) (closers s) (c_pc s)
                           (upd j (cset_st CRet) (c_procs s)) (fch_closed s) (timer_fired s)
                           (fired_early s) (S (fatal_count s)) (tie s || fch_closed s)
-                          (reterr s) (addcl s) (closes s) (run_rejected s) (cadds s))
+                          (reterr s) (addcl s) (closes s) (run_rejected s) (cadds s) (elapsed s))
           else None
       | None => None
       end
@@ -510,7 +539,7 @@ Definition step_c_gen (v u : variant) (s : cstate) (e : cev) : option cstate :=
           then Some (mkcs (inner s) (c_running s) (c_closing s) (c_stopped s) (closers s) (c_pc s)
                           (upd j (cset_st CRet) (c_procs s)) (fch_closed s) (timer_fired s)
                           (fired_early s) (fatal_count s) (tie s || timer_fired s)
-                          (reterr s) (addcl s) (closes s) (run_rejected s) (cadds s))
+                          (reterr s) (addcl s) (closes s) (run_rejected s) (cadds s) (elapsed s))
           else None
       | None => None
       end
@@ -520,7 +549,7 @@ Definition step_c_gen (v u : variant) (s : cstate) (e : cev) : option cstate :=
           if (i =? n)%nat && negb (fch_closed s)
           then Some (mkcs (inner s) (c_running s) (c_closing s) (c_stopped s) (closers s) (c_pc s)
                           (c_procs s) true (timer_fired s) (fired_early s) (fatal_count s) (tie s)
-                          (reterr s) (addcl s) (closes s) (run_rejected s) (cadds s))
+                          (reterr s) (addcl s) (closes s) (run_rejected s) (cadds s) (elapsed s))
           else None
       | _ => None
       end
@@ -543,7 +572,7 @@ Definition step_c_gen (v u : variant) (s : cstate) (e : cev) : option cstate :=
           if (i <=? n)%nat then None
           else Some (mkcs (inner s) (c_running s) (c_closing s) true (closers s) (CDone errs)
                           (c_procs s) (fch_closed s) (timer_fired s) (fired_early s) (fatal_count s)
-                          (tie s) errs (addcl s) (closes s) (run_rejected s) (cadds s))
+                          (tie s) errs (addcl s) (closes s) (run_rejected s) (cadds s) (elapsed s))
       | _ => None
       end
   | CCloseBegin =>
@@ -557,7 +586,7 @@ Definition step_c_gen (v u : variant) (s : cstate) (e : cev) : option cstate :=
           Some (mkcs (inner s) true (c_closing s) (if c_running s then c_stopped s else true)
                      (closers s) (c_pc s) (c_procs s) (fch_closed s) (timer_fired s) (fired_early s)
                      (fatal_count s) (tie s) (reterr s) (addcl s)
-                     (upd c (fun _ => KB) (closes s)) (run_rejected s) (cadds s))
+                     (upd c (fun _ => KB) (closes s)) (run_rejected s) (cadds s) (elapsed s))
       | Some KB =>
           if c_stopped s
           then Some (w_closes s (upd c (fun _ => KRet (reterr s)) (closes s)))
@@ -576,7 +605,7 @@ Definition step_c_gen (v u : variant) (s : cstate) (e : cev) : option cstate :=
                           (closers s ++ [User r]) (c_pc s) (c_procs s) (fch_closed s)
                           (timer_fired s) (fired_early s) (fatal_count s) (tie s) (reterr s)
                           (upd a (fun _ => ACAccepted (length (closers s))) (addcl s))
-                          (closes s) (run_rejected s) (cadds s))
+                          (closes s) (run_rejected s) (cadds s) (elapsed s))
       | _ => None
       end
   | CAddCheck b =>
@@ -618,10 +647,10 @@ Definition step_c_gen (v u : variant) (s : cstate) (e : cev) : option cstate :=
 Definition step_c (v : variant) (s : cstate) (e : cev) : option cstate := step_c_gen v v s e.
 
 (* NewRunnerCloserManager(log, grace, bs...) followed by AddCloser(cls...) *)
-Definition new_cm (grace : bool) (bs : list beh) (cls : list (option err)) : cstate :=
+Definition new_cm (grace : option Z) (bs : list beh) (cls : list (option err)) : cstate :=
   mkcs (new_rm bs) false false false
-       ((if grace then [Fatal] else []) ++ map User cls)
-       CIdle [] false false false 0 false [] [] [] 0 [].
+       ((match grace with Some d => [Fatal d] | None => [] end) ++ map User cls)
+       CIdle [] false false false 0 false [] [] [] 0 [] 0%Z.
 
 Fixpoint run_c (v : variant) (s : cstate) (es : list cev) : option cstate :=
   match es with
